@@ -130,7 +130,7 @@ typedef struct dhcp4_header_s {
 /* Message op code / message type. */
 #define DHCP4_HDR_OP_BOOTREQUEST	1
 #define DHCP4_HDR_OP_BOOTREPLY		2
-#define DHCP4_HDR_HTYPE_MAX		38
+#define DHCP4_HDR_HTYPE_MAX		37 /* Last item in dhcp4_header_htype[]. */
 #define DHCP4_HDR_HLEN_MAX		16
 
 static const char *dhcp4_header_op[] = {
